@@ -375,6 +375,10 @@ func (r *Runner) monTA(s *Step, rep *Reply) {
 				// the other half of KF2: an accepted configuration (shrunk available set, reserved CPUs moved) leaves the
 				// pool of a reinstated shared grant without a single sharable CPU in its supply
 				why = ":pool-without-sharable-supply"
+			} else if pl != nil && len(pl.FreeSharable) == 0 && SetOf(pl.Sharable).SubsetOf(heldExcl) {
+				// every sharable CPU of the pool's supply is held exclusively (only re-instatement after a shrinking
+				// reconfiguration gets there: AllocateCPU() always leaves sharable capacity behind)
+				why = ":pool-sharable-all-exclusive"
 			}
 			if c.CpusTold && len(MustList(c.Shadow.Cpus)) == 0 && !r.NoShadow {
 				r.Violate("C03", "empty-cpuset", s.Op+why, "after %s: CPU-pinned container %s has an empty allowed CPU set", s.Op, c.Key)
